@@ -62,12 +62,14 @@ theorem wire_roundtrip (g : GenMsg) (hg : g ∈ Gen.messages) (tag : Nat) (m : M
 /-- **Wire bytes = the protocol's**: for a message whose Go layout has the protocol's shape,
 the frame `send` builds is byte-for-byte what the independent spec serialiser writes:
 size[4] type[1] tag[2] body payload, the size covering the whole frame. -/
-theorem wire_bytes (g : GenMsg) (sm : Spec.SpecMsg) (h : sm.shape = g.shapeEnc) (tag : Nat) (m : Msg) :
+theorem wire_bytes (g : GenMsg) (sm : Spec.SpecMsg) (h : conformsTo g sm = true) (tag : Nat) (m : Msg) :
     frame g.desc tag m = Spec.bytes sm tag m.vals m.payload := by
-  simp only [Spec.SpecMsg.shape, GenMsg.shapeEnc, Prod.mk.injEq] at h
-  obtain ⟨ht, hb, hp⟩ := h
+  simp only [conformsTo, Bool.and_eq_true, beq_iff_eq] at h
+  obtain ⟨⟨ht, hb⟩, hp⟩ := h
+  have hb' : sm.body = List.map (fun x => x.kind) g.enc := by
+    rw [← hb]; simp [Spec.SpecMsg.body, Spec.SpecMsg.desc]
   unfold frame Spec.bytes encodeBody
-  simp only [GenMsg.desc, MsgDesc.layout, ← ht, ← hb, ← hp]
+  simp only [GenMsg.desc, MsgDesc.layout, ← ht, hb', ← hp]
   generalize m.vals = vs
   cases sm.pay with
   | none => simp
@@ -81,10 +83,11 @@ theorem wire_bytes (g : GenMsg) (sm : Spec.SpecMsg) (h : sm.shape = g.shapeEnc) 
     · simp
 
 /-- every registered message has such a spec entry (so `wire_bytes` applies to all 65). -/
-theorem every_message_has_spec : ∀ g ∈ Gen.messages, ∃ sm ∈ Spec.messages, sm.shape = g.shapeEnc := by
+theorem every_message_has_spec :
+    ∀ g ∈ Gen.messages, ∃ sm ∈ Spec.messages, conformsTo g sm = true := by
   intro g hg
   have := layouts_conform_to_9P2000L
-  simp only [genConforms, Bool.and_eq_true, List.all_eq_true, List.any_eq_true, beq_iff_eq] at this
+  simp only [genConforms, Bool.and_eq_true, List.all_eq_true, List.any_eq_true] at this
   exact this.1.1.1 g hg
 
 /-- **Directory replies**: the payload holds whole entries only, a prefix of the entries
